@@ -496,6 +496,54 @@ func Run(rep *report.Report, tier string) {
 			}
 		}
 	})
+	// ... and a second universe in which one network-instance name extends the other by a digit and the keys are
+	// chosen so that name and key concatenate to the same text ("VRF"+11... = "VRF1"+1...): an index keyed by an
+	// unseparated rendering of (network instance, key) confuses the two
+	type pairT struct {
+		k    kindT
+		a, b uint64
+	}
+	pairs := []pairT{{kNH, 11, 1}, {kNHG, 11, 1}, {kV4, 11, 1}, {kV6, 11, 1}, {kMPLS, 1001, 1}}
+	var ents2 []gent
+	for _, p := range pairs {
+		ents2 = append(ents2, gent{p.k, "VRF", p.a}, gent{p.k, "VRF1", p.b})
+	}
+	var masks2 []int
+	for m := 0; m < 1<<len(ents2); m++ {
+		masks2 = append(masks2, m)
+	}
+	par(masks2, func(m int) {
+		resp := &spb.GetResponse{}
+		var in []gent
+		for i, e := range ents2 {
+			if m&(1<<i) != 0 {
+				resp.Entry = append(resp.Entry, e.entry())
+				in = append(in, e)
+			}
+		}
+		for _, p := range pairs {
+			for _, w := range []gent{{p.k, "VRF", p.a}, {p.k, "VRF1", p.b}, {p.k, "VRF", p.b}, {p.k, "VRF1", p.a}} {
+				exp := false
+				for _, e := range in {
+					if e == w {
+						exp = true
+					}
+				}
+				failed, crash := fatal(func(t testing.TB) { chk.GetResponseHasEntries(t, resp, w.want()) })
+				sample := map[string]any{"helper": "GetResponseHasEntries", "response": fmt.Sprint(in), "want": w.String()}
+				var fs []fail
+				switch {
+				case crash != "":
+					fs = append(fs, fail{"C17/GetResponseHasEntries/panic", fmt.Sprintf("panicked (%s) on %v", crash, sample)})
+				case failed && exp:
+					fs = append(fs, fail{"C17/GetResponseHasEntries/fails-although-present/" + kindNames[p.k], fmt.Sprintf("%v", sample)})
+				case !failed && !exp:
+					fs = append(fs, fail{"C17/GetResponseHasEntries/passes-although-absent/" + kindNames[p.k], fmt.Sprintf("%v", sample)})
+				}
+				record(fmt.Sprintf("GetResponseHasEntries/colliding-names/present=%v", exp), fs, sample)
+			}
+		}
+	})
 	// error helpers
 	errCases := errorCases()
 	eidx := make([]int, len(errCases))
